@@ -34,6 +34,8 @@ THEOREMS = [
     "body_fidelity", "credentials_keep_encoding", "soap_defaults_delivered", "caller_header_delivered",
     "request_header_delivered", "reply_fidelity", "error_mapping", "status_mapping", "failures_propagate",
     "nonascii_url_rejected_before_io", "timeout_choice",
+    "cookie_history", "cookie_header_matches_history", "jar_unique", "delivered_replies_update_jar",
+    "error_replies_leave_jar",
 ]
 
 PRE = "From SV Require Import Lib.Base C15.Base64 C15.Model."
@@ -906,8 +908,15 @@ def run(ck):
         gen_tables.generate("C15Tables")
     except BaseException as e:   # noqa  (a generator must never stop the check)
         ck.notes.append("table generation raised %r" % (e,))
+    import time
+    phases, t_last = {}, [time.time()]
+
+    def lap(name):
+        phases[name] = round(time.time() - t_last[0], 1)
+        t_last[0] = time.time()
     proof_ok = ck.prove(THEOREMS)
     common.make(["C15/Model.vo"])
+    lap("proofs")
 
     rng = ck.rng
     thorough = ck.tier == "thorough"
@@ -957,6 +966,7 @@ def run(ck):
     if len(resq["cred_spec_ok"]) > 0:
         debatable["C15:colon-in-username"] = {"count": len(resq["cred_spec_ok"]), "example": list(qpairs[resq["cred_spec_ok"][0]])}
 
+    lap("credentials")
     # ---- 2. sessions through the loopback server --------------------------------
     try:
         clients = make_clients()
@@ -1027,6 +1037,7 @@ def run(ck):
         disagree["sessions"] = [dict(session_payload(sessions[i]), observed=[describe_obs(o) for o in xobs[i]])
                                 for i in xdis[:3]]
 
+    lap("sessions")
     # ---- 3. debatable behaviours: model agreement only --------------------------
     qsess, qcat = [], []
     for cat in QUIRKS:
@@ -1061,7 +1072,10 @@ def run(ck):
             ck.failing_input(key, "debatable behaviour %s" % qcat[i], session_payload(qsess[i]))
     ck.extra["debatable_behaviours_observed"] = {k: v["count"] for k, v in debatable.items()}
 
+    lap("debatable")
     run_small_families(ck, server, clients, blobs, disagree)
+    lap("outcomes-urls-timeouts")
+    ck.extra["phase_seconds"] = phases
 
     ck.rule = ("credentials: %d (user, password) pairs over printable Unicode incl. astral, all 64 last-sextets, the 3 "
                "padding lengths%s; sessions: 1-5 requests through HttpTransport / http.HttpAuthenticated / "
